@@ -136,6 +136,12 @@ type OtherT struct{ A []int }
 		map[string]string{"p/generated/zz_assert.go": "//go:build !goverter\n\npackage generated\n\nimport up \"MODULE/p\"\n\nvar _ up.C = &CImpl{}\nvar _ up.D = &DImpl{}\n"})
 	// blank fields (`_ T`, padding) cannot be assigned: in same-package output they are accessible like every unexported field
 	add("blank-struct-fields", scratch.Tree{"p/p.go": "package p\n\ntype In struct {\n\tA int\n\t_ int\n}\ntype Out struct {\n\tA int\n\t_ int\n}\n\n// goverter:variables\nvar (\n\tConv func(source In) Out\n\t// goverter:update target\n\tUpd func(source In, target *Out)\n)\n"}, map[string]string{})
+	// a LOCAL named type over a FOREIGN struct with an unexported field, output in the declaring package: the field belongs
+	// to the foreign package (refused unless ignored); the control converter ignores it and must compile
+	add("local-named-type-over-foreign-struct", scratch.Tree{"store/store.go": "package store\n\ntype Record struct {\n\tID       int\n\tchecksum string\n}\n",
+		"conv/conv.go": "package conv\n\nimport \"MODULE/store\"\n\ntype Row store.Record\ntype In struct {\n\tID       int\n\tchecksum string\n}\n\n// goverter:converter\n// goverter:output:file ./conv.gen.go\n// goverter:output:package MODULE/conv\ntype A interface {\n\tConvert(source In) Row\n}\n"}, map[string]string{})
+	add("local-named-type-over-foreign-struct-ignored", scratch.Tree{"store/store.go": "package store\n\ntype Record struct {\n\tID       int\n\tchecksum string\n}\n",
+		"conv/conv.go": "package conv\n\nimport \"MODULE/store\"\n\ntype Row store.Record\ntype In struct {\n\tID       int\n\tchecksum string\n}\n\n// goverter:converter\n// goverter:output:file ./conv.gen.go\n// goverter:output:package MODULE/conv\ntype A interface {\n\t// goverter:ignore checksum\n\tConvert(source In) Row\n}\n"}, map[string]string{})
 	add("recursive-helper-gains-context-late", scratch.Tree{"p/p.go": "package p\n\ntype V struct{ N int }\ntype W struct{ N int }\ntype S struct {\n\tKid *S2\n\tVal V\n}\ntype S2 struct{ Back *S }\ntype T struct {\n\tKid *T2\n\tVal W\n}\ntype T2 struct{ Back *T }\ntype Outer struct{ X S }\ntype OuterT struct{ X T }\n\n// goverter:context tag\nfunc VToW(v V, tag string) W { return W{N: v.N} }\n\n// goverter:converter\n// goverter:extend VToW\ntype C interface {\n\t// goverter:context tag\n\tConvert(source Outer, tag string) OuterT\n}\n"}, map[string]string{})
 	return out
 }
